@@ -87,7 +87,8 @@ def render_lines(doc):
 
 
 def render(doc):
-    return "".join(l + "\n" for l in render_lines(doc))
+    text = "".join(l + "\n" for l in render_lines(doc))
+    return text if doc.get("final_newline", True) else text[:-1]      # (the flow generators write files without the last newline)
 
 
 ERR = {TypeError: "TypeError", ValueError: "ValueError", IndexError: "IndexError", KeyError: "KeyError"}
@@ -216,6 +217,74 @@ def same(a, b):
     return a == b
 
 
+# Particle.data_ as documented (25 float slots; "Allfields" of the class docstring / the property's anchor): the harness' own
+# statement of the layout, used where only raw data_ lists were observed (C07) and have to be compared with file tokens
+SLOT = {"t": 0, "x": 1, "y": 2, "z": 3, "mass": 4, "p0": 5, "px": 6, "py": 7, "pz": 8, "pdg": 9, "ID": 11, "charge": 12,
+        "ncoll": 13, "form_time": 14, "xsecfac": 15, "proc_id_origin": 16, "proc_type_origin": 17, "time_last_coll": 18,
+        "pdg_mother1": 19, "pdg_mother2": 20, "status": 21, "baryon_number": 22, "strangeness": 23}
+
+
+def doc_cols(doc):
+    return doc["cols"] if doc["fmt"] == "ASCII" else HEADER_COLS[doc["fmt"]]
+
+
+def expected_slots(doc, row):
+    """{data_ slot: value} one particle line of `doc` must produce (from the tokens alone)"""
+    return {SLOT[h]: float(expected_value(h, tok)) for h, tok in zip(doc_cols(doc), row)}
+
+
+def check_rows(ev, rows, cols, label):
+    """the particles of one loaded event against the token rows the file has for it; None or a message"""
+    if len(ev) != len(rows):
+        return f"event {label}: {len(rows)} particle lines in the file, {len(ev)} particles loaded"
+    for r, (p, row) in enumerate(zip(ev, rows)):
+        for j, tok in enumerate(row):
+            h = cols[j]
+            got = getattr(p, ATTR[h])
+            exp = expected_value(h, tok)
+            if not same(got, exp) or (ASCII_KIND[h] != "f" and not isinstance(got, (int, np.integer))):
+                return (f"event {label} particle {r} column {h}: file says {tok!r} (= {exp!r}), "
+                        f"attribute {ATTR[h]} = {got!r}")
+    return None
+
+
+def check_particle_list(pl, nevents, want_rows, cols, labels):
+    """particle_list() (documented shape: [line][quantity] for one event, [event][line][quantity] otherwise) against the
+    token rows of the events held, column by column in file order"""
+    if nevents == 1:
+        pl = [pl]
+    if not isinstance(pl, list) or len(pl) != len(want_rows):
+        return f"particle_list() describes {len(pl) if isinstance(pl, list) else type(pl).__name__} events, {len(want_rows)} are held"
+    for k, (ev, rows) in enumerate(zip(pl, want_rows)):
+        if len(ev) != len(rows):
+            return f"particle_list(): event {labels[k]} has {len(ev)} lines, the file has {len(rows)}"
+        for r, (line, row) in enumerate(zip(ev, rows)):
+            exp = [expected_value(h, tok) for h, tok in zip(cols, row)]
+            if len(line) != len(exp) or any(not same(a, b) for a, b in zip(line, exp)):
+                return f"particle_list(): event {labels[k]} line {r} = {list(line)!r}, the file says {row!r}"
+    return None
+
+
+DECOY = {"Oscar2013": "Oscar2013Extended", "Oscar2013Extended": "Oscar2013", "ASCII": "Oscar2013"}
+
+
+def load_decoy(fmt, tmpdir):
+    """another, unrelated file (other format, two events, other impact parameters) is opened while the object under
+    inspection is alive: nothing the first object answers may change (state shared between objects / kept per class)"""
+    from sparkx.Oscar import Oscar
+    other = DECOY[fmt]
+    row = ["1", "2", "3", "4", "0.138", "7", "1", "2", "3", "211", "77", "1", "0", "0", "1", "0", "0", "0", "0", "0", "0", "0"]
+    d = {"fmt": other, "head": HEAD[other], "cols": None,
+         "events": [{"rows": [row[:len(COLS[other])]] * 2, "b": "99.500", "yn": "yes"}, {"rows": [row[:len(COLS[other])]], "b": "98.250", "yn": "no"}]}
+    path = os.path.join(tmpdir, f"decoy_{os.getpid()}.oscar")
+    with open(path, "w") as f:
+        f.write(render(d))
+    try:
+        return Oscar(path)
+    finally:
+        os.remove(path)
+
+
 def oracle_load(doc, tmpdir, sel=None):
     """C01 (sel None) / C02: what the file states, against what Oscar(...) returns"""
     import warnings
@@ -231,7 +300,11 @@ def oracle_load(doc, tmpdir, sel=None):
                 o = Oscar(path, **kw)
             except Exception as e:
                 return f"well-formed {doc['fmt']} file is rejected: {type(e).__name__}: {e}"[:300]
-            cols = doc["cols"] if doc["fmt"] == "ASCII" else HEADER_COLS[doc["fmt"]]
+            try:
+                decoy = load_decoy(doc["fmt"], tmpdir)
+            except Exception as e:
+                return f"a second, well-formed file opened while the first object is alive is rejected: {type(e).__name__}: {e}"[:300]
+            cols = doc_cols(doc)
             idx = list(range(len(doc["events"])))
             if isinstance(sel, int):
                 idx = [sel]
@@ -239,21 +312,12 @@ def oracle_load(doc, tmpdir, sel=None):
                 idx = list(range(sel[0], sel[1] + 1))
             evs = o.particle_objects_list()
             want = [doc["events"][i] for i in idx]
-            if all(len(e["rows"]) == 0 for e in want) and evs == [[]]:
-                evs = [[] for _ in want] if len(want) == 1 else evs
             if len(evs) != len(want):
                 return f"{len(want)} events expected, {len(evs)} returned"
             for k, (ev, wev) in enumerate(zip(evs, want)):
-                if len(ev) != len(wev["rows"]):
-                    return f"event {idx[k]}: {len(wev['rows'])} particle lines in the file, {len(ev)} particles loaded"
-                for r, (p, row) in enumerate(zip(ev, wev["rows"])):
-                    for j, tok in enumerate(row):
-                        h = cols[j]
-                        got = getattr(p, ATTR[h])
-                        exp = expected_value(h, tok)
-                        if not same(got, exp) or (ASCII_KIND[h] != "f" and not isinstance(got, (int, np.integer))):
-                            return (f"event {idx[k]} particle {r} column {h}: file says {tok!r} (= {exp!r}), "
-                                    f"attribute {ATTR[h]} = {got!r}")
+                msg = check_rows(ev, wev["rows"], cols, idx[k])
+                if msg:
+                    return msg
             if o.num_events() != len(want):
                 return f"num_events() = {o.num_events()}, file/selection has {len(want)}"
             cnt = np.asarray(o.num_output_per_event())
@@ -271,7 +335,7 @@ def oracle_load(doc, tmpdir, sel=None):
                 pl = o.particle_list()
             except Exception as e:
                 return f"particle_list() raises {type(e).__name__}: {e}"
-            return None
+            return check_particle_list(pl, len(want), [w["rows"] for w in want], cols, idx)
     finally:
         try:
             os.remove(path)
